@@ -234,6 +234,8 @@ class Facade:
            memoryfs | realos - the real things over a RealDisk (stub-fidelity slice)"""
 
     def __init__(self, kind, disk):
+        if isinstance(disk, SimDisk):
+            kind = {"realos": "native", "memoryfs": "simfs"}.get(kind, kind)
         self.kind = kind
         self.disk = disk
         self.kw = {}
@@ -438,7 +440,12 @@ def make_disk(world, config, faults, facade):
     if facade in ("realos", "memoryfs"):
         if faults:
             raise ValueError("faults need a simulated disk")
-        return RealDisk(world, config, facade)
+        try:
+            return RealDisk(world, config, facade)
+        except OSError:
+            # no usable temporary directory in this environment (full, read-only, name
+            # not representable): run the scenario on the corresponding stub instead
+            return SimDisk(world, config, faults)
     return SimDisk(world, config, faults)
 
 
